@@ -274,6 +274,9 @@ def stored_names(nodes: Iterable[ast.AST]) -> tuple[set[str], set[str]]:
                 names.add(base.id)
             else:
                 paths.add(ast.unparse(base))
+                root = _container_root(base)
+                if root is not None:
+                    names.add(root)  # xs[k].append(v) changes the container bound to xs
         elif isinstance(n, (ast.ListComp, ast.SetComp, ast.GeneratorExp, ast.DictComp)):
             # comprehension targets are local to the comprehension
             for g in n.generators:
@@ -292,6 +295,16 @@ def stored_names(nodes: Iterable[ast.AST]) -> tuple[set[str], set[str]]:
     for n in nodes:
         walk(n)
     return names, paths
+
+
+def _container_root(base: ast.expr) -> str | None:
+    """`xs` for `xs[k]`, `xs[k][j]` (element of a local container), else None"""
+    cur = base
+    if not isinstance(cur, ast.Subscript):
+        return None
+    while isinstance(cur, ast.Subscript):
+        cur = cur.value
+    return cur.id if isinstance(cur, ast.Name) else None
 
 
 def _exits(stmt: ast.stmt) -> bool:
@@ -324,6 +337,10 @@ class Flow:
         self._shadow: list[set[str]] = []
         self.inline_exclude: frozenset[str] = frozenset()
         self._collect_alldefs()
+        # heap paths (attribute-rooted) that this function stores to: reads of them are not propagated into
+        # definitions, so that facts about a local copy survive a later store to the field
+        _, sp = stored_names(func.node.body)
+        self._stored_heap = {x for x in sp if "." in x}
         init = State([Alt(dict(closure_env or {}), {})])
         out = self._block(func.node.body, init)
         self.end_state = out.fall  # state at implicit `return None`, if reachable
@@ -657,6 +674,10 @@ class Flow:
             for n in ast.walk(value)
         ):
             value = None  # `x = xs.pop()` is not a pure expression: do not propagate it as a definition
+        if value is not None and self._stored_heap:
+            ps = norm.access_paths(value)
+            if any(q == h or q.startswith(h + ".") for q in ps for h in self._stored_heap):
+                value = None  # reads a field that is re-assigned in this function: keep the local opaque
         new: list[ast.expr | None] = []
         for a in st.alts:
             if value is None:
@@ -796,6 +817,9 @@ class Flow:
                     self._mutate(st, base.id, e.func.attr, list(e.args))
                 else:
                     self._kill_path(st, ast.unparse(base))
+                    root = _container_root(base)
+                    if root is not None:
+                        self._mutate(st, root, "elem_" + e.func.attr, list(e.args))
             return
         if isinstance(e, (ast.Yield, ast.YieldFrom, ast.Await)):
             self._expr(e.value, st, extra)
@@ -825,7 +849,7 @@ class Flow:
         self._stmt = s
         try:
             out = self._stmt_exec_inner(s, st)
-            if self.events and isinstance(s, (ast.Expr, ast.Assign, ast.AugAssign, ast.AnnAssign, ast.Delete)) and out.fall is not None:
+            if self.events and out.fall is not None:
                 for label, pred in self.events.items():
                     if pred(s):
                         ev = Fact(ast.Call(ast.Name("__event__", ast.Load()), [ast.Constant(label)], []), line=s.lineno)
